@@ -98,6 +98,7 @@ def _cases(rng, n):
     _cases_t2(rng, n, reqs, want)
     _cases_t4(rng, n, reqs, want)  # --- T4
     _cases_t14(rng, n, reqs, want)  # --- T14
+    _cases_t7(rng, n, reqs, want)  # --- T7
     return reqs, want
 
 
@@ -299,6 +300,95 @@ def _cases_t14(rng, n, reqs, want):
         want.append(str(b.numerator) if b.denominator == 1 else f"{b.numerator}/{b.denominator}")
 
 
+# --- T7: the prelude functions of the `--- T7` block of OQ/Exec/Py.lean (ops `t7_*` of the driver)
+def _cases_t7(rng, n, reqs, want):
+    """--- T7: `k in d`, `d.get(k)`, `del d[k]` on dicts with int keys / small str values, `frozenset(d.items())` equality, dicts KEYED by
+    such frozensets (`in`, `[]`, `[] =`: an existing key keeps its position), `set(xs)` as the distinct elements in order of first
+    occurrence, set equality, `max` of a list / a set.  Expected values come from CPython itself (`ofOption` is a plain case
+    distinction and is not compared)."""
+    m = max(n // 3, 40)
+    vals = ["X", "Y", "Z", "I", ""]
+
+    def exc(thunk, conv):
+        names = {"RuntimeError": "runtime", "ValueError": "value", "IndexError": "index", "KeyError": "key", "TypeError": "type",
+                 "ZeroDivisionError": "zeroDiv"}
+        try:
+            return {"ok": conv(thunk())}
+        except (RuntimeError, ValueError, IndexError, KeyError, TypeError, ZeroDivisionError) as e:
+            return {"err": names[type(e).__name__]}
+
+    def small_dict(lo=0, hi=5):
+        return {k: rng.choice(vals) for k in rng.sample(range(-2, 7), rng.randrange(lo, hi))}
+
+    def items(d):
+        return [[k, v] for k, v in d.items()]
+
+    def variant(d):
+        """a dict related to d: the same items inserted in another order, one value changed, one key dropped / added, or unrelated"""
+        u = rng.random()
+        ks = list(d)
+        e = {k: d[k] for k in rng.sample(ks, len(ks))}
+        if u < 0.4 or not ks:
+            return e if u < 0.8 else small_dict(1, 3)
+        if u < 0.55:
+            k = rng.choice(ks)
+            e[k] = rng.choice([v for v in vals if v != d[k]])
+        elif u < 0.7:
+            del e[rng.choice(ks)]
+        elif u < 0.85:
+            e[rng.choice([k for k in range(-3, 9) if k not in d])] = rng.choice(vals)
+        else:
+            e = small_dict()
+        return e
+    for _ in range(m):
+        d = small_dict()
+        k = rng.choice(list(d) + [7, 8]) if rng.random() < 0.7 else rng.randrange(-3, 9)
+
+        def delete():
+            e = dict(d)
+            del e[k]
+            return e
+        reqs.append(("t7_dict", {"d": items(d), "k": k}))
+        want.append(("raw", {"has": k in d, "find": d.get(k), "del": exc(delete, items)}))
+    for _ in range(m):
+        d = small_dict()
+        e = variant(d)
+        reqs.append(("t7_frozen", {"d": items(d), "e": items(e)}))
+        want.append(("raw", frozenset(d.items()) == frozenset(e.items())))
+    for _ in range(m):
+        pool = [small_dict(0, 4) for _ in range(rng.randrange(1, 4))]
+        pool += [variant(rng.choice(pool)) for _ in range(rng.randrange(0, 4))]
+        ops = [[rng.choice(["set", "acc", "acc"]), rng.choice(pool), rng.randrange(-4, 9)] for _ in range(rng.randrange(1, 9))]
+        probes = [rng.choice(pool + [small_dict(0, 3)]) for _ in range(3)]
+
+        def play():
+            D = {}
+            for kind, kd, v in ops:
+                key = frozenset(kd.items())
+                if kind == "acc" and key in D:
+                    D[key] = D[key] + v
+                else:
+                    D[key] = v
+            return D
+        reqs.append(("t7_fdict", {"ops": [[kind, items(kd), v] for kind, kd, v in ops], "probes": [items(kd) for kd in probes]}))
+        want.append(("raw", exc(play, lambda D: {
+            "items": [[[list(it) for it in sorted(key)], v] for key, v in D.items()],
+            "has": [frozenset(kd.items()) in D for kd in probes],
+            "gets": [exc(lambda: D[frozenset(kd.items())], lambda v: v) for kd in probes]})))
+    for _ in range(m):
+        xs = [rng.randrange(0, 9) for _ in range(rng.randrange(0, 7))]
+        u = rng.random()
+        ys = rng.sample(xs, len(xs)) + ([rng.choice(xs)] if xs and u < 0.3 else []) if u < 0.5 else \
+            (xs[:-1] if u < 0.65 else xs + [rng.randrange(0, 12)] if u < 0.8 else [rng.randrange(0, 9) for _ in range(rng.randrange(0, 7))])
+        reqs.append(("t7_set", {"xs": xs, "ys": ys}))
+        want.append(("raw", {"set": list(dict.fromkeys(xs)), "eq": set(xs) == set(ys), "max": exc(lambda: max(xs), lambda v: v),
+                             "maxset": exc(lambda: max(set(xs)), lambda v: v)}))
+# --- end T7
+
+
+_STRUCTURED = ("t2_", "t4_", "t14_", "t7_", "t9_")  # prelude ops whose answers are structured (compared after normalising ints)
+
+
 def run(seed=0, n=120):
     """returns (number of comparisons, list of disagreements)"""
     rng = random.Random(f"prelude:{seed}")
@@ -309,7 +399,7 @@ def run(seed=0, n=120):
     got = drv.run(reqs)
     bad = []
     for (op, payload), w, g in zip(reqs, want, got):
-        if (op.startswith("t2_") or op.startswith("t4_") or op.startswith("t14_")) and not isinstance(w, str):  # --- T4: same treatment for t4_ ops  # --- T2: structured answers compared after normalising ints
+        if op.startswith(_STRUCTURED) and not isinstance(w, str):  # --- T4: same treatment for t4_ ops  # --- T2: structured answers compared after normalising ints
             w = w[1] if isinstance(w, tuple) else w
             if _norm_t2(g) != _norm_t2(w):
                 bad.append(f"{op} {payload}: CPython {w!r}, prelude {g!r}")
